@@ -316,6 +316,12 @@ class LRI(dict):
                 setitem(k, F[k])
             return
 
+    def __ior__(self, other):
+        # dict.__ior__ would bypass the size limit and the linked list
+        with self._lock:
+            self.update(other)
+            return self
+
     def __eq__(self, other):
         with self._lock:
             if self is other:
